@@ -75,6 +75,8 @@ def system(name, shape, dtype):
         g = dict(near=z + dtype(3.0), far=z + dtype(300.0), singular=z - dtype(1e6))
     else:
         raise KeyError(name)
+    # a guess whose norm is orders of magnitude larger than the root's (scale-dependent tolerances must follow the iterate)
+    g["huge"] = np.asarray(g["near"], dtype=dtype) * dtype(0) + dtype(1e6)
     return F, J, g
 
 
@@ -132,7 +134,7 @@ def solve_case(case):
 def run(ctx):
     ctx.rule = ("full product 7 systems (separable quadratics, coupled polynomial, trigonometric, exponential with remote root, cubic with singular Jacobian at the root, two rootless) "
                 "x shapes {(), (1,), (2,), (3,), (6,), (12,), (2,3)} x solvers {nonlinear_roots float64 = MINPACK path, nonlinear_roots longdouble = built-in dogleg then Newton, "
-                "newtontrustregion, hybrj} x Jacobian {analytic, finite differences} x guesses {near, far, singular point} x tol {1e-6, 1e-10, None}; "
+                "newtontrustregion, hybrj} x Jacobian {analytic, finite differences} x guesses {near, far, singular point, huge (1e6)} x tol {1e-6, 1e-10, None}; "
                 "distinct = distinct (solver, system, dtype, jacobian, guess, success) classes")
     ctx.assumptions += ["an exception counts as a reported failure", "residual re-evaluated in longdouble; bound 100*tol*(n + ||x||), tol None = the solvers' default 32 eps",
                         "systems are O(1)-scaled so a converged step and a small residual mean the same"]
@@ -146,7 +148,7 @@ def run(ctx):
                 for jac in ("analytic", "fd"):
                     if solver == "hybrj" and jac == "fd" and ctx.quick and shp not in ([2], [3]):
                         continue
-                    for guess in ("near", "far", "singular"):
+                    for guess in ("near", "far", "singular", "huge"):
                         for tol in (1e-6, 1e-10, None):
                             if ctx.quick and shp in ([12], [6]) and jac == "fd" and tol is None:
                                 continue
